@@ -118,6 +118,68 @@ func checkC01(c *Check) {
 			}
 			v := us.Val
 			why = "srcPID is " + shortU(v)
+			// the conversion may sit in a helper returning (pid, error): the
+			// helper's error must be non-nil whenever the conversion failed,
+			// and the store must be on the nil edge of the helper's error
+			if v.K == "call" && v.Name != "strconv.Atoi" && v.Idx == 0 {
+				if hc, isCall := v.V.(*ssa.Call); isCall {
+					var ds []*Org
+					for _, d := range Deref(v, 0) {
+						if d.K != "const" && d.K != "zero" { // the value returned together with an error
+							ds = append(ds, d)
+						}
+					}
+					if len(ds) == 1 && ds[0].K == "call" && ds[0].Name == "strconv.Atoi" && ds[0].Idx == 0 && ds[0].R != nil {
+						ac := ds[0].V.(*ssa.Call)
+						ao := ds[0].R.Of(ac.Call.Args[0])
+						root, fields := ao.FieldPath()
+						helperChecked := false
+						for _, g := range s.Guards {
+							if (g.Op == "!=" && !g.Pos || g.Op == "==" && g.Pos) && g.X.K == "call" && g.X.V == ssa.Value(hc) && g.X.Idx == 1 {
+								helperChecked = true
+							}
+						}
+						// in the helper: the Atoi error edge returns a non-nil error
+						propagates := false
+						var aerr ssa.Value
+						if rr := ac.Referrers(); rr != nil {
+							for _, u := range *rr {
+								if ex, ok := u.(*ssa.Extract); ok && ex.Index == 1 {
+									aerr = ex
+								}
+							}
+						}
+						if aerr != nil {
+							if nn, _, _ := errEdge(aerr); nn != nil {
+								propagates = true
+								hr := NewResolver(p)
+								for _, b := range ac.Parent().Blocks {
+									if len(b.Instrs) == 0 {
+										continue
+									}
+									ret, ok := b.Instrs[len(b.Instrs)-1].(*ssa.Return)
+									if !ok || !(b == nn || nn.Dominates(b)) {
+										continue
+									}
+									if len(ret.Results) < 2 || nilKind(hr, ret.Results[len(ret.Results)-1], ret) != NonNil {
+										propagates = false
+									}
+								}
+							}
+						}
+						switch {
+						case !(sameOrg(root, ev) && len(fields) == 2 && fields[0] == "Process" && fields[1] == "PID"):
+							why = "srcPID is converted from " + shortU(ao) + ", not from the LOGIN event's Process.PID"
+						case !propagates:
+							why = "the helper converting the PID does not return an error when the conversion fails"
+						case !helperChecked:
+							why = "the conversion error of the PID is not checked before the session is stored"
+						default:
+							okPID = true
+						}
+					}
+				}
+			}
 			if v.K == "call" && v.Name == "strconv.Atoi" && v.Idx == 0 {
 				ac := v.V.(*ssa.Call)
 				ao := us.R.Of(ac.Call.Args[0])
